@@ -33,7 +33,9 @@ func (c05) Info(tier string) fw.Info {
 		Level: "exploration",
 		Rule: "inputs: random bytes (incl. invalid UTF-8), token soup, prefixes of every corpus program (thorough: every byte prefix; quick: every token-boundary prefix of a seed-chosen subset), " +
 			"single-token edits (delete/duplicate/swap/replace) of corpus programs, nesting towers of depth 10/100/1000 for every recursive construct, semantically odd programs, " +
-			"single-character edits of small programs; each run as entry module and as imported module text. non-trivial = the input is non-empty and the lexer hook observed at least one NextToken call; " +
+			"single-character edits of small programs, lexemes the lexer rejects (illegal characters, lonely ~, broken escapes, unterminated literals) at every token boundary of a construct catalogue and at sampled boundaries of corpus programs, " +
+			"all 0..2-tuples (ordered pairs incl. duplicates) plus sampled longer tuples of elements of every list-like construct (parameters, object type/literal fields, import lists, capabilities, impl methods, match arms, top-level items, block statements, call arguments, list elements) in every context, " +
+			"every operator/cast/suffix over every operand kind; each run as entry module and as imported module text. non-trivial = the input is non-empty and the lexer hook observed at least one NextToken call; " +
 			"distinct = distinct (input bytes, mode)",
 		Assumptions: []string{
 			"inputs are limited to 64 KiB and nesting depth 1000 as stated by the property",
@@ -356,6 +358,12 @@ func (c05) Cases(tier string, seed uint64) []fw.Case {
 			}
 		}
 	}
+	// (h)-(k) further families (families.go); own PRNG stream so that (a)-(g) stay what they were
+	r2 := fw.NewRng(seed ^ 0xC05F)
+	lexErrCases(add, r2.Fork(), thorough, names, corpus)
+	soup2Cases(add, r2.Fork(), thorough)
+	tupleCases(add, r2.Fork(), thorough)
+	opTypeCases(add, thorough)
 	sort.SliceStable(cases, func(i, j int) bool { return false })
 	return cases
 }
